@@ -74,6 +74,8 @@ def execute_case(ctx, case):
             spec["argv"] = [_subst(a, obs) for a in spec["argv"]]
             if spec.get("env"):
                 spec["env"] = {k: _subst(v, obs) for k, v in spec["env"].items()}
+            if spec.get("stdin_from") is not None:
+                spec["stdin_hex"] = obs[spec["stdin_from"]].get("stdout_hex") or ""
             obs.append(ctx.cli(profile).run(spec))
     return obs
 
@@ -292,6 +294,8 @@ def _finish(mod, tier, seed, results, extra, extra_viol, errors, build_notes, t0
     if callable(required):
         required = required(tier)
     missing = [b for b in required if buckets.get(b, 0) == 0]
+    if hasattr(mod, "aggregate_requirements"):
+        missing += list(mod.aggregate_requirements(buckets, tier))
 
     os.makedirs(os.path.join(core.OUT, "replay"), exist_ok=True)
     lines = []
@@ -355,7 +359,7 @@ def _finish(mod, tier, seed, results, extra, extra_viol, errors, build_notes, t0
 
     for l in lines:
         print(l)
-    print("%s: %s — %d events judged, %d distinct non-trivial, %d bucket classes, %.1fs [%s seed=%d]" % (
+    print("%s: %s - %d events judged, %d distinct non-trivial, %d bucket classes, %.1fs [%s seed=%d]" % (
         pid, verdict.upper(), evaluations, coverage["distinct_nontrivial"], len(buckets), time.time() - t0, tier, seed))
     if new_viol:
         return 1
